@@ -29,6 +29,10 @@ fn generous_context(toks: &[Tok]) -> Ctx {
     c
 }
 
+fn take_log_quiet(l: &adapt::Log) {
+    adapt::take_log(l);
+}
+
 fn reasons_text(r: &[Ill]) -> String {
     r.iter().map(|x| format!("{:?}", x)).collect::<Vec<_>>().join("+")
 }
@@ -72,9 +76,20 @@ pub fn check_tokens(toks: &[Tok], l: &mut Local) -> Outcome {
 /// `base`: evaluate in this context extended generously (instead of the all-Int generous context),
 /// so that well-typed programs keep evaluating.
 pub fn check_tokens_in(toks: &[Tok], base: Option<&Ctx>, l: &mut Local) -> Outcome {
+    check_tokens_rendered(toks, base, false, l)
+}
+
+pub fn check_tokens_rendered(toks: &[Tok], base: Option<&Ctx>, tight: bool, l: &mut Local) -> Outcome {
     let reasons = ill_formed(toks);
     let is_balanced = balanced(toks);
-    let src = tok::render_spaced(toks);
+    let src = if tight { tok::render_tight(toks) } else { tok::render_spaced(toks) };
+    if tight {
+        // admissibility: the reference tokenizer must read the tight rendering as these tokens
+        match tok::lex(&src) {
+            Ok(o) if o.toks == toks => {},
+            _ => return Ok(()),
+        }
+    }
     let built = match build(&src) {
         Ok(b) => b,
         Err(p) => {
@@ -177,6 +192,17 @@ pub fn check_tokens_in(toks: &[Tok], base: Option<&Ctx>, l: &mut Local) -> Outco
     }
     let log = new_log();
     let mut real = build_hashmap(&ctx, &log);
+    // "in any context": the read-only evaluator must not give it a meaning either
+    if let Ok(Ok(v)) = vcore::catch(|| tree.eval_with_context(&real)) {
+        return fail(
+            format!("C13/ill-formed input evaluates through the read-only evaluator: {}", meaning_signature(toks, &reasons)),
+            format!("build error or evaluation error ({})", reasons_text(&reasons)),
+            format!("Ok({:?}) from `{}`", v, src),
+            tokens_case(toks),
+            toks.len(),
+        );
+    }
+    take_log_quiet(&log);
     let r = vcore::catch(|| tree.eval_with_context_mut(&mut real));
     match r {
         Err(p) => fail(
@@ -210,7 +236,7 @@ pub fn run(rep: &Report) {
     rep.set_rule(
         "every token sequence up to the length bound over the base alphabet plus `true`, classified by a local recogniser (I1 \
          unbalanced, I2 prefix without operand, I3 binary operator without operand, I4 juxtaposed operands) that builds \
-         no tree; random longer well-formed renderings with one planted defect, also of type-directed programs that call eager builtins (`if`, `min`, `len`, ...) and evaluate successfully before the defect is planted. Oracle: unbalanced -> build error; \
+         no tree; random longer well-formed renderings with one planted defect, also of type-directed programs that call eager builtins (`if`, `min`, `len`, ...) and evaluate successfully before the defect is planted; all sequences up to length 5 over number look-alike identifiers, signs and parentheses written without spaces. Evaluation is tried through the read-only and the mutable evaluator. Oracle: unbalanced -> build error; \
          balanced -> never an unmatched-brace error; I2/I3/I4 -> build error or wrong-arity node, and evaluation in a \
          generous context (every identifier bound as Int variable and as a function, builtins on) never Ok. \
          Non-trivial: ill-formed by exactly one reason with >= 3 tokens, or balanced with nesting >= 2.",
@@ -241,6 +267,29 @@ pub fn run(rep: &Report) {
         }
     }
     planted_typed(rep);
+    // number look-alike identifiers next to signs, written without spaces: the three-part
+    // exponent re-assembly must not swallow or invent tokens (`2e+*`, `1e-)`, `rate-fee`)
+    let mini: Vec<Tok> = vec![
+        Tok::Ident("1e".into()),
+        Tok::Ident("2E".into()),
+        Tok::Ident("e".into()),
+        Tok::Ident("rate".into()),
+        Tok::Plus,
+        Tok::Minus,
+        Tok::Star,
+        Tok::LParen,
+        Tok::RParen,
+        Tok::Int(1),
+        Tok::Not,
+    ];
+    for len in 1..=5 {
+        let total = refmodel::gen::count_sequences(mini.len(), len);
+        common::enumerate(rep, "tight-lookalikes", total, 4096, &|i, l| {
+            let mut toks = Vec::with_capacity(len);
+            refmodel::gen::nth_sequence(&mini, len, i, &mut toks);
+            check_tokens_rendered(&toks, None, true, l)
+        });
+    }
     rep.set_exhaustive(true);
     rep.add_extra("sequence_bound", json!(format!("all sequences of length <= {} over the 17-symbol alphabet (base + true)", max_len)));
     let n = rep.tier.pick(200_000u64, 3_000_000);
